@@ -136,6 +136,11 @@ enum Transport {
     Empty,
     /// connection closed abruptly after pick(at, len+1) body bytes
     Drop { at: u16 },
+    /// the same stream framed with CRLF line ends, complete
+    CrlfOk,
+    /// CRLF framing, connection closed right AFTER one of the last carriage returns of the body
+    /// (`back` = 0 the very last one: a final event whose blank line lacks only its LF)
+    CrlfDropAfterCr { back: u8 },
 }
 
 #[derive(Debug, Clone, Serialize, Deserialize, PartialEq)]
@@ -354,6 +359,8 @@ fn final_turn_s() -> BoxedStrategy<Turn> {
             .prop_map(|(status, body)| Transport::Http { status, body }),
         2 => Just(Transport::Empty),
         4 => any::<u16>().prop_map(|at| Transport::Drop { at }),
+        1 => Just(Transport::CrlfOk),
+        3 => (0u8..4).prop_map(|back| Transport::CrlfDropAfterCr { back }),
     ];
     let end = prop_oneof![
         8 => Just(End::CompletedDone),
@@ -778,6 +785,17 @@ fn render_turn(turn: &Turn, k: usize) -> Reply {
             r.drop_after = Some(pick(*at, body.len() + 1));
             r
         }
+        Transport::CrlfOk => Reply::sse(partition(body.replace('\n', "\r\n").as_bytes(), &turn.cuts)),
+        Transport::CrlfDropAfterCr { back } => {
+            let crlf = body.replace('\n', "\r\n");
+            let crs: Vec<usize> = crlf.bytes().enumerate().filter(|(_, b)| *b == b'\r').map(|(i, _)| i).collect();
+            let mut r = Reply::sse(partition(crlf.as_bytes(), &turn.cuts));
+            if !crs.is_empty() {
+                let k = crs.len() - 1 - (*back as usize).min(crs.len() - 1);
+                r.drop_after = Some(crs[k] + 1);
+            }
+            r
+        }
     }
 }
 
@@ -812,8 +830,10 @@ fn turn_classes(t: &Turn, rep: &mut CaseReport) {
         }
         Transport::Empty => rep.class("provider:empty_body"),
         Transport::Drop { .. } => rep.class("provider:connection_drop"),
+        Transport::CrlfOk => rep.class("provider:crlf_stream"),
+        Transport::CrlfDropAfterCr { .. } => rep.class("provider:crlf_drop_after_cr"),
     }
-    if matches!(t.transport, Transport::Ok | Transport::Drop { .. }) {
+    if matches!(t.transport, Transport::Ok | Transport::Drop { .. } | Transport::CrlfOk | Transport::CrlfDropAfterCr { .. }) {
         match &t.end {
             End::CompletedDone => rep.class("provider:completed_done"),
             End::NoDone | End::Bare => rep.class("provider:missing_done"),
